@@ -664,7 +664,9 @@ def set_add(ex, ref, v):
     cell = ex.run.cell(ref)
     note_mutation(ex, ref, cell)
     if cell.items is None:
-        raise OutOfSubset('add to symbolic set')
+        k = cell.sym.kind
+        cell.sym = Sym(k, z3.Store(cell.sym.t, P.lift(ex, v, k.elem), z3.BoolVal(True)))
+        return
     for it in cell.items:
         if ex.truth(P.eq(ex, it, v)):
             return
@@ -673,6 +675,21 @@ def set_add(ex, ref, v):
 
 def set_update(ex, ref, other):
     P = _P()
+    cell = ex.run.cell(ref)
+    osym = None
+    if isinstance(other, Sym) and isinstance(other.kind, K.SetOf):
+        osym = other
+    elif isinstance(other, Ref) and isinstance(ex.run.cell(other), HSet) and ex.run.cell(other).sym is not None:
+        osym = ex.run.cell(other).sym
+    if osym is not None:
+        note_mutation(ex, ref, cell)
+        if cell.sym is None:
+            if cell.items:
+                raise OutOfSubset('union of a concrete non-empty set with a symbolic one')
+            cell.items = None
+            cell.sym = Sym(osym.kind, z3.K(osym.kind.elem.sort(), z3.BoolVal(False)))
+        cell.sym = Sym(osym.kind, z3.SetUnion(cell.sym.t, osym.t))
+        return
     for it in P.iterate_concrete(ex, other):
         set_add(ex, ref, it)
 
